@@ -34,3 +34,6 @@ func (c *Chain) VerifResetTo(gb *block.Block, gr round.RoundI) {
 	c.SetLatestFinalizedBlock(gb)
 	c.SetLatestDeterministicBlock(gb)
 }
+
+// VerifPendingLFBTickets is the number of received LFB tickets not yet taken by the worker.
+func (c *Chain) VerifPendingLFBTickets() int { return len(c.updateLFBTicket) + len(c.broadcastLFBTicket) }
